@@ -91,10 +91,12 @@ def run(ctx):
     sorted_rule(ctx, syn)
     row_rule(ctx, syn)
     compress_rule(ctx, syn)
+    expand_rule(ctx, syn)
     guard_rule(ctx, syn)
 
     r_own = ctx.rule("C01.OWN", "index, id-map, store and position-index fields are written only by their sanctioned writers")
     n = own_rule(ctx, prog, r_own)
+    lowlevel_rule(ctx, prog)
     ctx.floor(r_own, n, 60, "field writers")
 
     # ---------------- PAIR / CFG / NEW on the annotation callbacks
@@ -858,6 +860,118 @@ def compress_rule(ctx, syn):
     r.hit("pairs", sample={"pairs_evaluated": n, "merged": merged})
     ctx.floor(r, n, 600, "selector pairs evaluated")
     ctx.floor(r, merged, 6, "merging pairs")
+
+
+def expand_rule(ctx, syn):
+    """the other half of range compression: SelectorIter::get_internal_ranged_item turns item i of an internal ranged
+    selector back into the selector it stands for.  inserted() builds the reverse indices from this iterator, so an
+    expansion that loses the text reference leaves the annotation out of the text index."""
+    from formula import Evaluator, Unknown, Panic, StructVal, EnumVal, some, is_some, ok
+    r = ctx.rule("C01.EXPAND", "item i of an internal ranged selector expands to the selector it replaced: handle begin+i, default offset mode, and for a ranged annotation selector with text the text selection of the target annotation however that annotation reaches its text (text selector or annotation selector with offset)")
+    fs = [f for f in syn.fns if f.name == "get_internal_ranged_item" and f.file == "src/selector.rs"]
+    th = [f for f in syn.fns if f.name == "textselection_handle" and f.file == "src/selector.rs" and (f.self_ty or "") == "Selector"]
+    rh = [f for f in syn.fns if f.name == "resource_handle" and f.file == "src/selector.rs" and (f.self_ty or "") == "Selector"]
+    if len(fs) != 1 or len(th) != 1 or len(rh) != 1:
+        ctx.anchor_missing(r, "SelectorIter::get_internal_ranged_item / Selector::textselection_handle / resource_handle")
+        return
+    fn = fs[0]
+    ctx.functions_analysed.update([fn.qual, th[0].qual, rh[0].qual])
+    BB = EnumVal("BeginBegin")
+    targets = {
+        "TextSelector": (EnumVal("TextSelector", [7, 40, EnumVal("EndEnd")]), (7, 40)),
+        "AnnotationSelector+offset": (EnumVal("AnnotationSelector", [2, some((8, 41, EnumVal("BeginEnd")))]), (8, 41)),
+        "AnnotationSelector": (EnumVal("AnnotationSelector", [2, None]), None),
+        "ResourceSelector": (EnumVal("ResourceSelector", [7]), None),
+        "DataSetSelector": (EnumVal("DataSetSelector", [3]), None),
+    }
+    n = 0
+    reported = set()
+    for tname, (tgt, text) in sorted(targets.items()):
+        hooks = {}
+        hooks["as_usize"] = lambda ev, recv, args, node, env: recv if isinstance(recv, int) else NotImplemented
+        hooks["call:AnnotationHandle::new"] = lambda ev, recv, args, node, env: args[0]
+        hooks["call:TextSelectionHandle::new"] = lambda ev, recv, args, node, env: args[0]
+        hooks["call:Cow::Owned"] = lambda ev, recv, args, node, env: args[0]
+        hooks["call:OffsetMode::default"] = lambda ev, recv, args, node, env: BB
+        hooks["get"] = lambda ev, recv, args, node, env: ok(StructVal("Annotation", {"handle": args[0]})) if isinstance(recv, StructVal) and recv.tyname == "AnnotationStore" else NotImplemented
+        hooks["expect"] = lambda ev, recv, args, node, env: recv[1] if isinstance(recv, tuple) and recv and recv[0] == "ok" else NotImplemented
+        hooks["target"] = lambda ev, recv, args, node, env, tgt=tgt: tgt if isinstance(recv, StructVal) and recv.tyname == "Annotation" else NotImplemented
+        hooks["textselection_handle"] = lambda ev, recv, args, node, env: Evaluator(hooks=hooks).run_body(th[0].body, {"self": recv}) if isinstance(recv, EnumVal) else NotImplemented
+        hooks["resource_handle"] = lambda ev, recv, args, node, env: Evaluator(hooks=hooks).run_body(rh[0].body, {"self": recv}) if isinstance(recv, EnumVal) else NotImplemented
+        for with_text in (True, False):
+            for c in (0, 1, 2):
+                sel = StructVal("RangedAnnotationSelector", {"begin": 10, "end": 12, "with_text": with_text})
+                me = StructVal("SelectorIter", {"cursor_in_range": c, "store": StructVal("AnnotationStore", {})})
+                key = "annotation:%s:%s" % (tname, "with_text" if with_text else "plain")
+                try:
+                    got = Evaluator(hooks=hooks).run_body(fn.body, {"self": me, "selector": sel})
+                except (Unknown, Panic) as e:
+                    if "unevaluated" not in reported:
+                        reported.add("unevaluated")
+                        ctx.report(r, "unevaluated", "get_internal_ranged_item could not be evaluated (%s): that a ranged selector expands to what it replaced is not established" % e, fn.file, fn.line)
+                    continue
+                n += 1
+                want_payload = some((text[0], text[1], BB)) if (with_text and text is not None) else None
+                want = EnumVal("AnnotationSelector", [10 + c, want_payload])
+                if c == 0:
+                    r.hit(key, sample={"ranged": "RangedAnnotationSelector{10..12, with_text=%s}" % with_text, "target_of_each": tname, "item0": repr(got)})
+                if got != want and key not in reported:
+                    reported.add(key)
+                    ctx.report(r, key, "item %d of RangedAnnotationSelector{begin:10,end:12,with_text:%s} over annotations whose own target is %s expands to %r, expected %r: the annotation keeps its text for its own text() but is left out of the reverse index of that text selection (textselection.annotations() / resource.annotations() miss it)" % (c, with_text, tname, got, want), fn.file, fn.line)
+    for c in (0, 1):
+        sel = StructVal("RangedTextSelector", {"resource": 7, "begin": 20, "end": 22})
+        me = StructVal("SelectorIter", {"cursor_in_range": c, "store": StructVal("AnnotationStore", {})})
+        try:
+            got = Evaluator(hooks=hooks).run_body(fn.body, {"self": me, "selector": sel})
+            n += 1
+            r.hit("text:%d" % c)
+            if got != EnumVal("TextSelector", [7, 20 + c, BB]):
+                ctx.report(r, "text", "item %d of RangedTextSelector{resource:7,begin:20,end:22} expands to %r, expected TextSelector(7, %d, BeginBegin)" % (c, got, 20 + c), fn.file, fn.line)
+        except (Unknown, Panic) as e:
+            ctx.report(r, "unevaluated", "get_internal_ranged_item could not be evaluated (%s)" % e, fn.file, fn.line)
+    ctx.floor(r, n, 32, "expansions evaluated")
+
+
+def lowlevel_rule(ctx, prog, rid="C01.LOWLEVEL"):
+    """Annotation::add_data / remove_data change an annotation's forward data references "without updating any reverse
+    index" (their own documentation).  A caller must therefore write the same (set, data, annotation) triple to
+    dataset_data_annotation_map on every path that continues normally after the call."""
+    import json as _json
+    r = ctx.rule(rid, "every call of the low-level Annotation::add_data / remove_data (forward reference only) is followed, on every non-error path to the function's return, by the matching insert / remove on dataset_data_annotation_map")
+    n = 0
+    for bid, b in sorted(prog.bodies.items()):
+        if b.d.get("derived"):
+            continue
+        sites = [(bi, (mirq.callee_of(t)[0] or "").split("::")[-1]) for bi, t in b.calls() if re.search(r"annotation::Annotation::(add_data|remove_data)$", mirq.callee_of(t)[0] or "")]
+        if not sites:
+            continue
+        ctx.functions_analysed.add(bid)
+        errs = set(bi for bi, t in b.calls() if (mirq.callee_of(t)[0] or "").endswith("FromResidual::from_residual"))
+        rets = [bi for bi, blk in enumerate(b.blocks) if blk["t"]["t"] == "return"]
+        for bi, which in sites:
+            n += 1
+            want = "insert" if which == "add_data" else "remove"
+            idx = set(x for x, t in b.calls() if re.search(r"TripleRelationMap::<.*>::%s$" % want, mirq.callee_of(t)[0] or "") and '"n": "dataset_data_annotation_map"' in _json.dumps(b.blocks[x]))
+            # the index may also be updated before the forward write (dominating it)
+            before = any(b.dominates(x, bi) for x in idx if x != bi)
+            tgt = b.blocks[bi]["t"].get("target")
+            bypass = None
+            if which == "remove_data":
+                # the un-indexing is deferred to a loop over the collected triples (zero iterations is a CFG path): required is
+                # that it exists and is reachable after the call; the all-paths form is applied to add_data only
+                if not before and not any(b.can_reach(bi, x) for x in idx):
+                    bypass = -1
+            elif not before and tgt is not None:
+                avoid = idx | errs
+                for rt in rets:
+                    if tgt == rt or (tgt not in avoid and b.can_reach(tgt, rt, avoid=avoid)):
+                        bypass = rt
+                        break
+            key = "%s|%s#%d" % (bid, which, [x for x, _ in sites].index(bi) + 1)
+            r.hit(key, sample={"in": bid, "call": which, "index_calls": len(idx), "bypass": bypass is not None})
+            if bypass is not None:
+                ctx.report(r, "%s|%s" % (bid, which), "%s calls Annotation::%s (line %s) and can return normally without the matching dataset_data_annotation_map.%s on that path: the annotation's data and the reverse index disagree (data.annotations() misses the annotation, or removal cascades miss it)" % (bid, which, b.blocks[bi]["t"].get("line"), want), b.file, b.blocks[bi]["t"].get("line"))
+    ctx.floor(r, n, 3, "calls of Annotation::add_data / remove_data")
 
 
 def SInt_(v):
